@@ -59,7 +59,7 @@ Ltac pieces :=
 
 Lemma spec_posts_last g st o : posts_last (spec_events g st o) = true.
 Proof.
-  destruct o as [k kw0|k id c v|k id kw0|k id|k id|k id fr|k]; unfold spec_events.
+  destruct o as [k kw0|k id c v|k id kw0|k id|k id|k id fr|k|k id|k id]; unfold spec_events.
   - rewrite posts_last_app_nopost by apply no_post_sig_events. simpl app.
     cbn [posts_last]. rewrite andb_true_l.
     apply posts_last_run_posts; [apply no_write_after_part|apply no_other_sig_after_part; reflexivity|apply posts_last_after_part].
@@ -73,6 +73,8 @@ Proof.
     apply posts_last_run_posts; [apply no_write_after_part|apply no_other_sig_after_part; reflexivity|apply posts_last_after_part].
   - reflexivity.
   - reflexivity.
+  - reflexivity.
+  - destruct (is_nil _); [reflexivity|]. simpl app. cbn [posts_last]. apply posts_last_after_part.
 Qed.
 
 Lemma oa_write {K} sb sa (w : write K) : ordered_around sb sa [EWrite w] = true.
@@ -88,7 +90,7 @@ Ltac oa :=
 Lemma spec_ordered g st o :
   ordered_around (fst (around o)) (snd (around o)) (spec_events g st o) = true.
 Proof.
-  destruct o as [k kw0|k id c v|k id kw0|k id|k id|k id fr|k]; unfold spec_events, around, fst, snd.
+  destruct o as [k kw0|k id c v|k id kw0|k id|k id|k id fr|k|k id|k id]; unfold spec_events, around, fst, snd.
   - oa.
   - destruct (is_lazy k).
     + rewrite app_nil_r. apply ordered_around_nowrite, no_write_sig_events.
@@ -100,6 +102,8 @@ Proof.
   - oa.
   - reflexivity.
   - reflexivity.
+  - reflexivity.
+  - destruct (is_nil _); [reflexivity|]. oa.
 Qed.
 
 Lemma count_single_write {K} (f : ev K -> bool) (w : write K) : f (EWrite w) = false -> count f [EWrite w] = 0%nat.
@@ -114,7 +118,7 @@ Lemma spec_counts g st o s i :
   count (is_sig_to s i) (spec_events g st o)
   = if owed st o s then count (fun p : Z * act => Z.eqb i (fst p)) (sel s (tab g (op_cls o))) else 0%nat.
 Proof.
-  destruct o as [k kw0|k id c v|k id kw0|k id|k id|k id fr|k]; unfold spec_events, owed, before_sig, after_sig, op_cls.
+  destruct o as [k kw0|k id c v|k id kw0|k id|k id|k id fr|k|k id|k id]; unfold spec_events, owed, before_sig, after_sig, op_cls.
   - counts. destruct s; simpl; lia.
   - destruct (is_lazy k); [|destruct (is_nil _)]; counts; destruct s; simpl; lia.
   - destruct (is_lazy k); [|destruct (is_nil _)]; counts; destruct s; simpl; lia.
@@ -122,6 +126,8 @@ Proof.
   - counts. destruct s; simpl; lia.
   - reflexivity.
   - reflexivity.
+  - reflexivity.
+  - destruct (is_nil (pend_of st k id)); counts; destruct s; simpl; lia.
 Qed.
 
 Lemma hist_once g ops r s a i :
@@ -168,7 +174,7 @@ Proof.
   assert (H2 : sig_eqb s SUpdated = false) by (destruct Hs; subst; reflexivity).
   assert (H3 : sig_eqb s SDestroy = false) by (destruct Hs; subst; reflexivity).
   assert (H4 : sig_eqb s SDestroyed = false) by (destruct Hs; subst; reflexivity).
-  destruct o as [k kw0|k id c v|k id kw0|k id|k id|k id fr|k]; simpl in Ho; try discriminate; unfold step, with_handle.
+  destruct o as [k kw0|k id c v|k id kw0|k id|k id|k id fr|k|k id|k id]; simpl in Ho; try discriminate; unfold step, with_handle.
   - destruct (h_get id _) as [h|]; [|reflexivity]. unfold commit_ures. cbn [snd fst]. apply assign_core_no_create; assumption.
   - destruct (h_get id _) as [h|]; [|reflexivity]. unfold commit_ures. cbn [snd fst]. apply set_core_no_create; assumption.
   - destruct (h_get id _) as [h|]; [|reflexivity]. unfold commit_ures, sync_core. cbn [snd fst].
@@ -182,6 +188,13 @@ Proof.
     rewrite (no_other_sig_after_x _ _ _ _ _ _ H4). reflexivity.
   - destruct (tbl_has id _); reflexivity.
   - reflexivity.
+  - destruct (h_get id _) as [h|]; reflexivity.
+  - destruct (h_get id _) as [h|]; [|reflexivity]. cbv zeta.
+    assert (Hx : existsb (is_sig s) (u_tr (sync_core g k id (h_pend h) (k_fired (ks st k)))) = false).
+    { unfold sync_core. destruct (is_nil _); cbn [u_tr]; [reflexivity|].
+      rewrite existsb_app, (no_other_sig_after_x _ _ _ _ _ _ H2). reflexivity. }
+    destruct (u_out (sync_core g k id (h_pend h) (k_fired (ks st k)))); try (unfold commit_ures; cbn [snd fst]; exact Hx).
+    destruct (tbl_has id _); [unfold commit_ures; cbn [snd fst]; exact Hx|cbn [snd fst]; exact Hx].
 Qed.
 
 Lemma hist_no_create g ops r s :
